@@ -42,7 +42,7 @@ def read_events(path):
     return events
 
 
-def run_daemon(config_text, suffix, ready, signal_after=None, timeout=25.0, args=(), wait_ready=8.0, config_name=None, inject=None):
+def run_daemon(config_text, suffix, ready, signal_after=None, timeout=25.0, args=(), wait_ready=8.0, config_name=None, inject=None, compiled=False):
     """Start the daemon on a generated configuration.
 
     ready(events) -> bool decides when the services are considered up; then, after
@@ -55,6 +55,13 @@ def run_daemon(config_text, suffix, ready, signal_after=None, timeout=25.0, args
         if config_text is not None:
             with open(cfg, "w") as f:
                 f.write(config_text)
+            if compiled:
+                # the file holds the byte-compiled form of the text
+                source = os.path.join(tmp, "source_of_config.py")
+                os.rename(cfg, source)
+                subprocess.run([core.PYTHON, "-c", "import py_compile, sys; py_compile.compile(sys.argv[1], cfile=sys.argv[2], doraise=True)", source, cfg],
+                               check=True, timeout=60)
+                os.unlink(source)
         evfile = os.path.join(tmp, "events.jsonl")
         errfile = os.path.join(tmp, "stderr.txt")
         env = dict(os.environ, VERIF_EVENT_FILE=evfile, PYTHONUNBUFFERED="1")
